@@ -293,7 +293,13 @@ def pat_binds(p, out=None):
 
 
 def pat_str(p):
-    """Canonical text of a pattern: Expression::BooleanGroup(And, $group) etc."""
+    """Canonical text of a pattern: Expression::BooleanGroup(And, $group) etc.  The result compares equal to a template modulo
+    a consistent renaming of the binders (alpha.S)."""
+    import alpha
+    return alpha.S(_pat_str(p))
+
+
+def _pat_str(p):
     if p is None:
         return "_"
     k = p.get("k")
@@ -302,30 +308,30 @@ def pat_str(p):
     if k == "Bind":
         s = "$" + p["name"]
         if p.get("sub"):
-            s += "@" + pat_str(p["sub"])
+            s += "@" + _pat_str(p["sub"])
         return s
     if k == "Variant":
         name = p["adt"].split("::")[-1] + "::" + p["variant"]
         if p["nfields"] == 0:
             return name
-        subs = {s["i"]: pat_str(s["p"]) for s in p["sub"]}
+        subs = {s["i"]: _pat_str(s["p"]) for s in p["sub"]}
         return name + "(" + ", ".join(subs.get(i, "_") for i in range(p["nfields"])) + ")"
     if k == "Leaf":
         if p["ty"].startswith("("):
             n = max([s["i"] for s in p["sub"]] + [-1]) + 1
-            subs = {s["i"]: pat_str(s["p"]) for s in p["sub"]}
+            subs = {s["i"]: _pat_str(s["p"]) for s in p["sub"]}
             return "(" + ", ".join(subs.get(i, "_") for i in range(n)) + ")"
-        return "{" + ", ".join("%s: %s" % (s["f"], pat_str(s["p"])) for s in p["sub"]) + "}"
+        return "{" + ", ".join("%s: %s" % (s["f"], _pat_str(s["p"])) for s in p["sub"]) + "}"
     if k in ("Deref", "DerefPattern"):
-        return "&" + pat_str(p["sub"])
+        return "&" + _pat_str(p["sub"])
     if k == "Const":
         return p["v"]
     if k == "Range":
         return p["v"]
     if k == "Or":
-        return " | ".join(pat_str(q) for q in p["pats"])
+        return " | ".join(_pat_str(q) for q in p["pats"])
     if k == "Guard":
-        return pat_str(p["sub"]) + " if <guard>"
+        return _pat_str(p["sub"]) + " if <guard>"
     if k == "Slice":
         return "[..]"
     return "<" + str(k) + ">"
@@ -432,7 +438,61 @@ def _desugar(n):
             out[key] = _desugar(v)
         else:
             out[key] = v
-    return _explicit_try(out)
+    return _explicit_tests(_explicit_while_let(_explicit_expect(_explicit_try(out))))
+
+
+def _only_break(n):
+    n = unblock(n)
+    if n.get("k") == "Block":
+        if not n["stmts"] and n.get("expr") is not None:
+            return _only_break(n["expr"])
+        if len(n["stmts"]) == 1 and n["stmts"][0]["k"] == "Expr" and n.get("expr") is None:
+            return _only_break(n["stmts"][0]["e"])
+        return False
+    return n.get("k") == "Break" and n.get("value") is None and not n.get("label_outer")
+
+
+def _explicit_while_let(n):
+    """`loop { let P = E else { break }; REST }` is `while let P = E { REST }`"""
+    if n.get("k") == "Loop":
+        b = n["body"]
+        if isinstance(b, dict) and b.get("k") == "Block" and b["stmts"] and b["stmts"][0]["k"] == "Let" and b["stmts"][0].get("else") is not None \
+                and b["stmts"][0].get("init") is not None and _only_break(b["stmts"][0]["else"]):
+            st = b["stmts"][0]
+            cond = {"k": "LetCond", "ty": "bool", "sp": st.get("sp"), "pat": st["pat"], "arg": st["init"]}
+            then = {"k": "Block", "ty": "()", "sp": b.get("sp"), "unsafe": False, "stmts": b["stmts"][1:], "expr": b.get("expr")}
+            iff = {"k": "If", "ty": "()", "sp": b.get("sp"), "cond": cond, "then": then, "else": st["else"], "exp": ["desugar:WhileLoop"]}
+            out = dict(n)
+            out["body"] = {"k": "Block", "ty": "()", "sp": b.get("sp"), "unsafe": False, "stmts": [], "expr": iff}
+            return out
+    return n
+
+
+_TESTS = {("Option", "Some"): "std::option::Option::<T>::is_some", ("Option", "None"): "std::option::Option::<T>::is_none",
+          ("Result", "Ok"): "std::result::Result::<T, E>::is_ok", ("Result", "Err"): "std::result::Result::<T, E>::is_err"}
+
+
+def _payload_free(p):
+    p = strip_ref(p)
+    return p.get("k") == "Variant" and all(strip_ref(s["p"]).get("k") == "Wild" for s in p.get("sub") or [])
+
+
+def _explicit_tests(n):
+    """`matches!(E, Some(_))` (= match E { Some(_) => true, _ => false }) is `E.is_some()`; likewise None/Ok/Err, and
+    `if let Some(_) = E` is `if E.is_some()`"""
+    k = n.get("k")
+    if k == "Match" and len(n["arms"]) == 2 and not any(a.get("guard") for a in n["arms"]):
+        a0, a1 = n["arms"]
+        v0, v1 = lit(peel(a0["body"])), lit(peel(a1["body"]))
+        if v0 == ("bool", True) and v1 == ("bool", False) and _payload_free(a0["pat"]) and strip_ref(a1["pat"]).get("k") == "Wild":
+            fn = _TESTS.get(variant_of(a0["pat"]))
+            if fn:
+                return {"k": "Call", "ty": "bool", "sp": n.get("sp"), "fn": fn, "local": False, "gen": [], "hir_call": True, "synthetic": "test", "args": [n["scrut"]]}
+    if k == "LetCond" and _payload_free(n["pat"]):
+        fn = _TESTS.get(variant_of(n["pat"]))
+        if fn:
+            return {"k": "Call", "ty": "bool", "sp": n.get("sp"), "fn": fn, "local": False, "gen": [], "hir_call": True, "synthetic": "test", "args": [n["arg"]]}
+    return n
 
 
 def _ret_none(n):
@@ -445,6 +505,89 @@ def _ret_none(n):
             return _ret_none(n["stmts"][0]["e"])
         return False
     return n.get("k") == "Return" and n.get("value") is not None and adt_is(peel(n["value"]), "Option", "None")
+
+
+def _panics(n):
+    """the expression is nothing but a panic (panic!/unreachable!/unimplemented!), possibly in a block of its own"""
+    n = unblock(n)
+    if n.get("k") == "Block":
+        if not n["stmts"] and n.get("expr") is not None:
+            return _panics(n["expr"])
+        if len(n["stmts"]) == 1 and n["stmts"][0]["k"] == "Expr" and n.get("expr") is None:
+            return _panics(n["stmts"][0]["e"])
+        return None
+    if n.get("k") == "Call" and ("panicking::" in (n.get("fn") or "") or (n.get("fn") or "").endswith(("rt::panic_fmt", "rt::panic_display", "rt::begin_panic"))) and n.get("ty") == "!":
+        return n
+    return None
+
+
+def _expect_of(scrut, ok_variant, panic_node, ty):
+    """synthetic `scrut.expect("..")` standing for `match scrut { Some(x)/Ok(x) => x, _ => panic!(..) }`; it carries the span of
+    the panic so that the MIR panic site maps onto it"""
+    fn = "std::option::Option::<T>::expect" if ok_variant == "Some" else "std::result::Result::<T, E>::expect"
+    return {"k": "Call", "ty": ty, "sp": panic_node.get("sp"), "fn": fn, "local": False, "gen": [ty], "hir_call": True, "synthetic": "expect",
+            "args": [scrut, {"k": "Lit", "ty": "&str", "sp": panic_node.get("sp"), "v": "s:.."}]}
+
+
+def _subst_first_use(body, bind, value):
+    """`{ let x = V; f(g(x), ..) }` -> `f(g(V), ..)` when x is a plain binding used exactly once and that use is the first thing the
+    body evaluates (receiver / first argument of a chain of calls, borrows and derefs), so evaluation order is unchanged."""
+    if bind.get("k") != "Bind" or bind.get("sub"):
+        return None
+    uses = [x for x in walk(body) if x.get("k") in ("Var", "Upvar") and x.get("id") == bind["id"]]
+    if len(uses) != 1:
+        return None
+    n = unblock(body)
+    chain = []
+    while True:
+        k = n.get("k")
+        if k in ("Borrow", "Deref", "Coerce", "ByUse", "Cast"):
+            chain.append(n)
+            n = n["arg"]
+        elif k == "Call" and n.get("args") and n.get("fn"):
+            chain.append(n)
+            n = n["args"][0]
+        elif k == "Block" and not n.get("stmts") and n.get("expr") is not None:
+            n = n["expr"]
+        else:
+            break
+    if n is not uses[0]:
+        return None
+    return _subst(unblock(body), {bind["id"]: value})
+
+
+def _explicit_expect(n):
+    """`match E { Some(P) => B, None => panic!(..) }` (also Ok/Err, `if let .. else { panic }`, `let .. else { panic }`) is
+    `{ let P = E.expect(".."); B }`"""
+    k = n.get("k")
+    if k == "Match" and len(n["arms"]) == 2 and not any(a.get("guard") for a in n["arms"]):
+        for okv, adt, badv in (("Some", "Option", "None"), ("Ok", "Result", "Err")):
+            good = [a for a in n["arms"] if variant_of(a["pat"]) == (adt, okv)]
+            bad = [a for a in n["arms"] if a not in good and (variant_of(a["pat"]) == (adt, badv) or strip_ref(a["pat"]).get("k") == "Wild")]
+            if len(good) == 1 and len(bad) == 1 and bad[0] is n["arms"][1]:
+                pn = _panics(bad[0]["body"])
+                sub = subpat(good[0]["pat"], 0)
+                if pn is None or sub is None:
+                    continue
+                # the Err payload must not be used by the panic (its message is elided anyway) - any use is only formatting
+                ex = _expect_of(n["scrut"], okv, pn, sub.get("ty", "?"))
+                b = peel(unblock(good[0]["body"]))
+                if strip_ref(sub).get("k") == "Bind" and b.get("k") == "Var" and b.get("id") == strip_ref(sub).get("id") and not strip_ref(sub).get("sub"):
+                    return ex
+                one = _subst_first_use(good[0]["body"], strip_ref(sub), ex)
+                if one is not None:
+                    return one
+                return {"k": "Block", "ty": n["ty"], "sp": n["sp"], "stmts": [{"k": "Let", "pat": sub, "init": ex, "else": None, "sp": n["sp"]}], "expr": good[0]["body"]}
+    if k == "Block":
+        for s in n["stmts"]:
+            if s["k"] == "Let" and s.get("else") is not None and s.get("init") is not None and variant_of(s["pat"]) in (("Option", "Some"), ("Result", "Ok")):
+                pn = _panics(s["else"])
+                sub = subpat(s["pat"], 0)
+                if pn is not None and sub is not None:
+                    s["init"] = _expect_of(s["init"], variant_of(s["pat"])[1], pn, sub.get("ty", "?"))
+                    s["pat"] = sub
+                    s["else"] = None
+    return n
 
 
 def _explicit_try(n):
@@ -665,6 +808,16 @@ def _normalise(n, F, depth, tail=False):
                                        "init": {"k": "Call", "ty": out["ty"], "sp": out["sp"], "fn": "std::vec::Vec::<T>::new", "local": False, "gen": [], "hir_call": True, "args": []}, "else": None},
                                       {"k": "Expr", "e": loop}],
                             "expr": outv, "collected": True}
+    # (3) `v.extend(iter.map(closure))` on a Vec is the loop `for p in iter { v.push(closure body) }`
+    if k == "Call" and (out.get("fn") or "").endswith("Extend::extend") and len(out["args"]) == 2 and "std::vec::Vec<" in str(out["args"][0].get("ty")):
+        m = peel(out["args"][1])
+        if call_is(m, "Iterator::map") and peel(m["args"][1]).get("k") == "Closure":
+            clo = F.fns.get(peel(m["args"][1])["def"])
+            ps = [p for p in clo.thir["params"] if p.get("pat") is not None] if clo is not None and clo.thir is not None else []
+            if len(ps) == 1:
+                body = _normalise(clo.raw_body, F, depth + 1)
+                push = {"k": "Call", "ty": "()", "sp": out["sp"], "fn": "std::vec::Vec::<T, A>::push", "local": False, "gen": [], "hir_call": False, "args": [out["args"][0], body]}
+                return {"k": "For", "ty": "()", "sp": out["sp"], "pat": ps[0]["pat"], "iter": m["args"][0], "body": push, "extended": True}
     return out
 
 
